@@ -175,6 +175,16 @@ def main(argv=None) -> int:
                 json.dump(w, f, indent=1, sort_keys=True)
             replay_paths.append((p, w))
 
+    if n_new and not replay_paths:  # counted but no witness kept: still name a replay file
+        rdir = os.path.join(VERIF_ROOT, "replay", prop)
+        os.makedirs(rdir, exist_ok=True)
+        p = os.path.join(rdir, f"unwitnessed-{seed}.json")
+        w = {"mechanism": None, "what": f"{n_new} refutation(s) counted without a stored witness: "
+             + json.dumps({k: v for k, v in vcounts.items() if k not in known}), "witness": {"_seed": seed, "_tier": a.tier}}
+        with open(p, "w") as f:
+            json.dump(w, f, indent=1)
+        replay_paths.append((p, w))
+
     wall = time.time() - t0
     if not a.no_evidence and not a.replay and a.only_shard is None:
         coverage = {
